@@ -133,7 +133,7 @@ class Hang(Exception):
     pass
 
 
-def run(sc, seed, grace=20.0, on_hang=None):
+def run(sc, seed, grace=45.0, on_hang=None):
     """One perturbed real-thread execution.  Returns a result dict shaped like
     conc.run's.  `on_hang(info)` is called from the watcher thread when the
     consumer is parked for longer than `grace` without any event."""
